@@ -101,9 +101,8 @@ func ParseSnap(b []byte) ([]ParsedEntry, error) {
 		if i >= len(lines) {
 			return nil, fmt.Errorf("entry %q: terminator missing", e.ID)
 		}
-		if i == start {
-			return nil, fmt.Errorf("entry %q: no body line at all", e.ID)
-		}
+		// (a header directly followed by the terminator reads back as the empty value, like
+		// the one blank body line the library writes for it)
 		e.Body = strings.Join(lines[start:i], "\n")
 		i++
 		out = append(out, e)
